@@ -20,21 +20,21 @@ import (
 
 // StressOpts configures one concurrent stress history
 type StressOpts struct {
-	Schedulers  int
-	Cancelers   int
-	Readers     int
-	Reloader    bool
-	Saver       bool
+	Schedulers   int
+	Cancelers    int
+	Readers      int
+	Reloader     bool
+	Saver        bool
 	OpsPerClient int
-	RealDelay   time.Duration // start delay of pipeline p1 (0 = none)
-	Retention   int
-	Shutdown    int // 0 none, 1 graceful, 2 forced
-	Parker      bool
-	HTTPReaders bool
-	FailProb    float64
-	RealRunner  bool // use the real taskctl.TaskRunner (scripts are shell builtins)
-	Watchdog    time.Duration
-	MaxPauseUs  int
+	RealDelay    time.Duration // start delay of pipeline p1 (0 = none)
+	Retention    int
+	Shutdown     int // 0 none, 1 graceful, 2 forced
+	Parker       bool
+	HTTPReaders  bool
+	FailProb     float64
+	RealRunner   bool // use the real taskctl.TaskRunner (scripts are shell builtins)
+	Watchdog     time.Duration
+	MaxPauseUs   int
 }
 
 // StressResult adds the overlap matrix to the history result
